@@ -206,6 +206,14 @@ Section Natural.
     rewrite sorted_pairs_hom, map_app, mk_pairs_hom. reflexivity.
   Qed.
 
+  Lemma label_names_hom lps : label_names_dm A lps = label_names_dm B (map (hLP h) lps).
+  Proof. unfold label_names_dm. rewrite map_map. apply map_ext_eq. intros; apply hom_LP_name. Qed.
+  Lemma created_label_names_hom vars consts :
+    label_names_dm A (make_label_pairs_dm A vars (const_pairs_dm A consts))
+    = label_names_dm B (make_label_pairs_dm B vars (const_pairs_dm B consts))
+    /\ label_names_dm A (const_pairs_dm A consts) = label_names_dm B (const_pairs_dm B consts).
+  Proof. rewrite !label_names_hom, make_label_pairs_hom, const_pairs_hom. split; reflexivity. Qed.
+
   (* ---------------------------------------------------------------- the library's collectors *)
   Lemma value_metric_hom lps t v : hM h (value_metric_dm A lps t v) = value_metric_dm B (map (hLP h) lps) t v.
   Proof.
